@@ -109,6 +109,12 @@ func (x *Exec) modelCall(st *State, fr *Frame, ci *ssa.Call, name string, args [
 		return scalarSV(ci.Type(), BvBin("bvsub", timeNanos(args[0]), n)), true
 	case "(time.Duration).Seconds", "(time.Duration).String":
 		return SV{}, false
+	case "math/rand/v2.IntN", "math/rand.Intn", "math/rand/v2.N":
+		x.modelled["math/rand IntN(n): some value in [0, n)"] = true
+		r := mkVar(freshName("rand"), I64)
+		st.assume(BvCmp("bvsle", mkBV(0, 64), r))
+		st.assume(BvCmp("bvslt", r, args[0].t()))
+		return scalarSV(ci.Type(), r), true
 	case "crypto/subtle.ConstantTimeCompare":
 		x.modelled["crypto/subtle.ConstantTimeCompare: 1 iff equal lengths and equal bytes"] = true
 		return x.bytesEqual(st, fr, ci, args[0], args[1], true), true
